@@ -20,11 +20,13 @@ class PreRel (R : VM ν → VM ν → Prop) : Prop where
   refl : ∀ s, R s s
   trans : ∀ {a b c}, R a b → R b c → R a c
 
-/-- `R` does not look at the heap, the call stack / current module, the module table -/
+/-- `R` does not look at the heap, the call stack / current module, the export lists of the module table (the only part of the
+module table the evaluator writes: `addExport`; modules are allocated by the loader, `LoaderPrims`) -/
 class Stable (R : VM ν → VM ν → Prop) : Prop extends PreRel R where
   heap : ∀ s h, R s { s with heap := h }
   stack : ∀ s st cs, R s { s with stack := st, csModuleID := cs }
-  modules : ∀ s m, R s { s with modules := m }
+  exports : ∀ (s : VM ν) (i : Nat) (md : Module) (e : List (String × Addr)), s.modules[i]? = some md →
+    R s { s with modules := s.modules.set! i { md with exports := e } }
 
 /-- the weaker requirement that suffices for everything that never overwrites a heap cell: `R` tolerates allocation
 (a cell appended to the heap), call stack / current module and module table changes.  Relations that do look at
@@ -32,14 +34,15 @@ existing heap cells (e.g. "method cells are never altered") are `Stable0` but no
 class Stable0 (R : VM ν → VM ν → Prop) : Prop extends PreRel R where
   alloc : ∀ (s : VM ν) (c : Cell ν), R s { s with heap := s.heap.push c }
   stack : ∀ s st cs, R s { s with stack := st, csModuleID := cs }
-  modules : ∀ s m, R s { s with modules := m }
+  exports : ∀ (s : VM ν) (i : Nat) (md : Module) (e : List (String × Addr)), s.modules[i]? = some md →
+    R s { s with modules := s.modules.set! i { md with exports := e } }
 
 instance (R : VM ν → VM ν → Prop) [h : Stable R] : Stable0 R where
   refl := h.refl
   trans := h.trans
   alloc s c := h.heap s _
   stack := h.stack
-  modules := h.modules
+  exports := h.exports
 
 structure Pres (R : VM ν → VM ν → Prop) {α} (m : M ν α) : Prop where
   run : ∀ s, R s (m s).2
@@ -188,9 +191,10 @@ theorem Pres.currentModule : Pres R (currentModule (ν := ν)) := by
 theorem Pres.addExport (i : Nat) (name : String) (v : Addr) : Pres R (addExport (ν := ν) i name v) := by
   constructor; intro s; unfold Model.addExport; split
   · exact PreRel.refl _
-  · split
+  · rename_i m hm
+    split
     · exact PreRel.refl _
-    · exact Stable0.modules s _
+    · exact Stable0.exports s _ _ _ hm
 
 macro_rules | `(tactic| pres_prim) => `(tactic| with_reducible (first
   | apply Pres.alloc | apply Pres.getCell | apply Pres.newNull | apply Pres.newBool
@@ -354,7 +358,7 @@ instance (R : VM ν → VM ν → Prop) [h : ScopePrims R] : ScopePrims0 R where
   trans := h.trans
   alloc s c := h.heap s _
   stack := h.stack
-  modules := h.modules
+  exports := h.exports
   emit := h.emit
   pushFrame := h.pushFrame
   declareElement := h.declareElement
